@@ -2,8 +2,8 @@
 # soak: every claimed check with many seeds; prints only failures (used via `vp run`, not a registered check)
 cd "$(dirname "$(readlink -f "$0")")/.."
 ./setup.sh >/dev/null 2>&1
-n=${1:-20}
-for s in $(seq 1 $n); do
+n=${1:-20}; o=${2:-0}          # soak.sh <how many seeds> [<skip the first o>]
+for s in $(seq $((o+1)) $((o+n))); do
   for p in $(python3 -c "import json;print(' '.join(c['property_id'] for c in json.load(open('MANIFEST.json'))['checks']))"); do
     out=$(VERIF_SEED=$((s*7919)) ./check $p quick 2>&1 | tail -2)
     case "$out" in *FAIL*|*VIOLATION*) echo "seed=$((s*7919)) $out";; esac
